@@ -18,18 +18,18 @@ CLAIMS = {
          "model bounded to streams of <=7 packets at M=8/W=2; first transmissions recorded by the harness"),
  "C04": ("model_checking",
          "The layer state machine of Forward.tla (Write's bookkeeping, adjustLayer abstracted to up/down/none, limitSid) is checked exhaustively against L1-L6 over all flag sequences for VP8-like (3 temporal) and VP9-like (2 temporal x 3 spatial) streams; real Write/adjustLayer/handleReport/replaceTracks executions are validated by TLC, L7 on the real ceiling value.",
-         "sequential interleavings only: the Write-vs-adjustLayer data race on the packed layer word (F16) is not exercised"),
+         "Forward.tla interleaves Write / adjustLayer / limitSid atomically; LayerRace.tla splits the two feedback paths at load/store (exhaustive, compare-and-swap stores; the plain-store configuration re-finds the repaired F16) and the interleavings it finds are forced on the real code through hooks; Write's own load..store window and Write racing Write (NACK path) are not forced"),
  "C05": ("model_checking",
          "Cache.tla's ring part (Store/Get/GetAt/Resize/ResizeCond transcribed from packetcache.go) is checked exhaustively -- every store/resize history over a 4-value number space incl. the wrap, capacities 1..3, closes without a length bound -- against the C05 monitor evaluated over every lookup the API offers after every step; TLC-simulated behaviours at the real constants and seeded histories (capacities to 65535, sizes 1..1504) are executed on the real cache and validated by TLC; thorough adds one writer + concurrent readers under the race detector.",
          "byte identity is mapped to content ids by the Go harness; concurrency is covered by the race detector and fidelity checks in the thorough tier, not by the model"),
  "C06": ("model_checking",
-         "Cache.tla's accounting part (RFC 3550 counters, 32-bit loss bitmap, the receive loop's NACK decision) is checked against N1-N4/S1-S3: steady streams exhaustively, lossy/late/restart histories breadth-first under a time budget; the faithful switch re-finds the repaired finding F20; real Store/BitmapGet/Expect/GetStats/ToBitmap executions at the real constants are validated by TLC.",
-         "readLoop/nackWriter read from a pion TrackRemote and are not driven directly: the driver executes the loop's arithmetic as transcribed in the spec"),
+         "Cache.tla's accounting part (RFC 3550 counters, 32-bit loss bitmap, the receive loop's NACK decision) is checked against N1-N4/S1-S3: steady streams exhaustively, lossy/late/restart histories breadth-first under a time budget; the faithful switches re-find the repaired findings F20 and F26; real Store/BitmapGet/Expect/GetStats/ToBitmap executions at the real constants are validated by TLC.",
+         "API tier: the driver executes the receive loop's arithmetic as transcribed in the spec; end-to-end tier: a scripted pion publisher (gaps, late packets, duplicates, wrap, 1900 packets/s) feeds the real server and hooks at sendNACK / sendNACKs log what the cache holds at the instant a NACK goes upstream (Trace_Nack: N1-N4 on the real readLoop / nackWriter), on 7 streams per quick run"),
  "C10": ("model_checking",
          "Group.tla (one action per critical section of group.go: add/reload+autoLockKick, admission, departure, SetLocked) is checked exhaustively against the admission monitor for 2 operators + 2 non-operators over every description and reload and all interleavings; the faithful switch re-finds the repaired F5 window; the real group package is driven sequentially (TLC-simulated + seeded operation sequences, real description files and reloads), by a forced schedule through the hooks, and by racing goroutines, all recorded in linearisation order by hooks numbered under Group.mu and validated by TLC.",
          "fake group.Client values stand in for web clients; time-window edges are an hour away from now"),
  "C13": ("model_checking",
-         "Queue.tla (unbounded.Channel, instruction-level) is checked exhaustively (exactly-once/in-order, no lost wake-up, liveness) and EVERY complete interleaving TLC enumerates (2548 for 2x2) is forced on the real Channel through the hook in Put and validated by TLC; Locks.tla (lock/guarded-access sequences of 10 lifecycle operations) is checked for deadlock and lockset discipline over every pair and triple, its faithful switches re-finding F4/F5/F8/F18; on the real code the deadlock schedules are forced with gates + watchdog + goroutine dump, and racing rounds run under the race detector.",
+         "Queue.tla (unbounded.Channel, instruction-level) is checked exhaustively (exactly-once/in-order, no lost wake-up, liveness) and EVERY complete interleaving TLC enumerates (2548 for 2x2) is forced on the real Channel through the hook in Put and validated by TLC; Locks.tla (lock/guarded-access sequences of 10 lifecycle operations) is checked for deadlock and lockset discipline over every pair and triple, its faithful switches re-finding F4/F5/F8/F18 and two design switches (kicks under the group lock, live history buffer) showing the deadlock / race they would cause; on the real code the deadlock schedules are forced with gates + watchdog + goroutine dump (incl. the last operator leaving an autokick group with WHIP and recording members), and racing rounds (incl. history readers vs writers) run under the race detector.",
          "data races are decided by Go's race detector on executed rounds; Locks.tla is a hand transcription of the lock sequences (drift is only visible through the forced schedules and the race rounds)"),
  "C16": ("model_checking",
          "Stores.tla (token/stateful.go over an explicit file-system model with editors' tags, an external editor and a crash between any two file-system steps) is checked exhaustively against E1-E4; TLC-simulated and seeded behaviours (library calls, external edits, restarts, a crash at each of the six named points of add()/rewrite() executed in a child process) run on the real token package with an independent reader after every step, plus parallel read-tag/conditional-write editors; Trace_Stores judges.",
@@ -53,9 +53,9 @@ CLAIMS = {
  "C19": ("model_checking", "Paths.tla (path.Clean, validGroupName, validUsername, parseGroupName, getDescriptionFile's file name, the recordings delete target as operators over component sequences, against the property's closed form and 'resolution never climbs above the root') is checked by TLC on every name of up to 3 components over 7 component kinds, the faithful switch re-finding the repaired F22; the real validators, parser, description functions and openDiskFile run on every table row, hand-written escapes and seeded hostile strings inside a scratch tree with sentinels next to the configured directories (tree compared before/after every call), and raw HTTP traversal attempts on the static, group, API, recordings and delete-form routes plus websocket joins under bad names run against the real server with every directory digested after every request; Trace_Paths judges.",
          "Linux separator semantics; no symbolic links planted; recorder file names judged at openDiskFile"),
  "C20": ("model_checking", "Recorder.tla / RecOps.tla (per packet: written, cache-only, held and released inside the reorder window, lost, duplicated; Write's gap detection and fetch as Layer I; 'only complete sent frames, each once, in order; nothing lost => every complete frame from the first complete keyframe on' as Layer P) enumerates EVERY history of a 6-packet video stream and a 6-frame audio stream with design checks; every enumerated history and seeded long ones (to 900 packets, seqno and 32-bit timestamp wrap, audio+video with sender reports, stop vs departure) run on the REAL diskwriter.Client via PushConn with a fake publisher and cache; the WebM files are parsed back with ebml-go and Trace_Rec replays the logged operations through RecOps and judges R1-R6; K1 (dependency) is matched by its signature only.",
-         "VP8/Opus payloads only; shared origin judged only with sender reports; keyframe flag not judged"),
+         "VP8/Opus payloads only (key frames of two sizes: a change of dimensions starts a new file); shared origin judged only with sender reports; keyframe flag not judged; after an unrecoverable loss R4 is demanded again from the next complete keyframe that follows the loss"),
  "C07": ("model_checking", "Streams.tla (one action per client stimulus -- join, leave, request, requestStream, publish with 1-3 tracks and optional replace, unpublish, abort -- with the server's reaction from pushConnNow/pushDownConn/requestedTracks/closeDownConn as Layer I) folds every reaction through StrMonitor (offers only to joined members of the publisher's group, with the publisher's id/username/label and exactly the tracks the request selects; closes only for ended / unrequested / aborted streams; another client's abort or request touches nobody else; at quiescence offered <=> requested and nothing held of an ended stream); TLC checks exhaustively for 3 clients x 2 groups x 2 stream ids that the monitor never objects to the design and that the design meets the quiescent equalities; TLC-simulated stimulus sequences and hand-written behaviours (every way a stream can end, late joiners, per-stream requests, abort, a non-answering subscriber, another group) run against the REAL server with real pion publishers and subscribers, judged by the same monitor (Trace_Streams).",
-         "sequential driver with quiescence (statistics stable + pings) after every stimulus; partial offers tolerated until a publication is complete"),
+         "sequential driver with quiescence (statistics stable + pings) after every stimulus, plus pipelined behaviours (join + request while a publication starts) judged at quiescence only; partial offers tolerated until a publication is complete"),
 }
 REASON_DEFAULT = "check under construction (not yet registered); see DESIGN.md section 5"
 NA = {}
